@@ -7,7 +7,7 @@ use crate::loop_el::{ForElement, LoopElement};
 use crate::position::{BoundingBox, BoundingBoxBuilder, LocSpec};
 use crate::reuse::ReuseElement;
 use crate::themes::ThemeBuilder;
-use crate::types::{extract_urlref, fstr, split_unit, AttrMap, OrderIndex};
+use crate::types::{fstr, split_unit, AttrMap, OrderIndex};
 use crate::TransformConfig;
 
 use std::collections::{BTreeMap, HashMap, HashSet};
@@ -100,60 +100,51 @@ impl EventGen for DefaultsElement {
 }
 
 impl SvgElement {
-    /// The bounding box of this (just generated) element after any `clip-path` it carries.
+    /// The bounding box of this (just generated) container after any `clip-path` it
+    /// carries. (The box of a shape comes from `get_element_bbox()`, which clips.)
     #[inline(never)]
     fn clipped_bbox(
         &self,
         ol: &OutputList,
-        mut bbox: Option<BoundingBox>,
+        bbox: Option<BoundingBox>,
         context: &mut TransformerContext,
     ) -> Result<Option<BoundingBox>> {
         // (elements which are replaced by what they generate don't pass a clip-path
         // on to the output, so nothing is clipped)
-        let is_output = !matches!(self.name.as_str(), "reuse" | "loop" | "for" | "if");
-        if let (true, Some(el_bbox), Some(clip_id)) = (
-            is_output,
-            bbox,
-            self.get_attr("clip-path")
-                .and_then(|url| extract_urlref(&url)),
-        ) {
-            let clip_el = context
-                .get_element(&clip_id)
-                .ok_or(SvgdxError::ReferenceError(clip_id))?;
-            if clip_el.name == "clipPath" {
-                let clip_bbox = context.get_element_bbox(clip_el)?;
-                let object_units =
-                    clip_el.get_attr("clipPathUnits").as_deref() == Some("objectBoundingBox");
-                if let (true, false, Some(clip_bbox)) =
-                    (self.has_attr("transform"), object_units, clip_bbox)
-                {
-                    // The clip path is in this element's user space, i.e. inside its
-                    // transform, while `el_bbox` is already transformed. (Later lookups
-                    // of this element clip for themselves; see `get_element_bbox()`.)
-                    // The element as written to the output has the evaluated transform.
-                    let out_el = ol.iter().find_map(|ev| match ev {
-                        OutputEvent::Start(e) | OutputEvent::Empty(e) => Some(e),
-                        _ => None,
-                    });
-                    if let Some(out_el) = out_el {
-                        bbox = out_el
-                            .transformed(Some(clip_bbox))?
-                            .and_then(|clip_bbox| el_bbox.intersect(&clip_bbox));
-                    }
-                } else {
-                    // (fractions of the element's box are the same fractions of the
-                    // transformed box)
-                    bbox = clip_el.clip(el_bbox, clip_bbox, context);
-                    if !self.has_attr("transform") {
-                        let mut el = self.clone();
-                        el.content_bbox = bbox;
-                        context.update_element(&el);
-                    }
+        let is_container = !self.is_graphics_element()
+            && !matches!(self.name.as_str(), "loop" | "for" | "if" | "box" | "point");
+        let Some(el_bbox) = bbox.filter(|_| is_container) else {
+            return Ok(bbox);
+        };
+        // The element as written to the output has the evaluated attributes.
+        let Some(out_el) = ol.iter().find_map(|ev| match ev {
+            OutputEvent::Start(e) | OutputEvent::Empty(e) if e.name == self.name => Some(e),
+            _ => None,
+        }) else {
+            return Ok(bbox);
+        };
+        if !out_el.has_attr("clip-path") {
+            return Ok(bbox);
+        }
+        // The clip path is in this element's user space, i.e. inside its transform,
+        // while `el_bbox` is already transformed: the clip is applied to the box as it
+        // is inside, which the (translate / scale) transform is undone for.
+        let mut plain = out_el.clone();
+        plain.pop_attr("transform");
+        match out_el.get_attr("transform") {
+            None => context.clip_bbox(&plain, el_bbox),
+            Some(transform) => {
+                let transform: crate::transform_attr::TransformAttr = transform.parse()?;
+                match transform.unapply(&el_bbox) {
+                    Some(inside) => match context.clip_bbox(&plain, inside)? {
+                        Some(clipped) => Ok(Some(transform.apply(&clipped))),
+                        None => Ok(None),
+                    },
+                    // (not a transform which can be undone: the clip is left out of account)
+                    None => Ok(bbox),
                 }
             }
         }
-
-        Ok(bbox)
     }
 }
 
@@ -425,6 +416,11 @@ impl EventGen for OtherElement {
                     context.update_element(t);
                 }
             }
+        }
+        if self.0.name == "svg" && !context.is_nested() {
+            // (the document's own root element, written as an empty element: its width /
+            // height give the size of the image rather than a place within it)
+            bb = None;
         }
         if self.0.name == "point" {
             // point elements have no bounding box, and are primarily used for
@@ -960,6 +956,10 @@ impl Waiting {
         idx: &OrderIndex,
         context: &mut TransformerContext,
     ) {
+        let started_in = match succeeded {
+            true => attempt.written_in.clone(),
+            false => None,
+        };
         if succeeded {
             if attempt.retried {
                 self.waiting_count -= 1;
@@ -996,8 +996,16 @@ impl Waiting {
         if let Some(current) = attempt.current {
             if attempt.retried {
                 // what a retried element does to its surroundings comes too late for the
-                // elements after it, which have been evaluated already
+                // elements after it, which have been evaluated already - except settings
+                // it changed (the border, say), which are the document's
+                let changed = match (succeeded, &started_in) {
+                    (true, Some(started_in)) => context.config_changed_since(started_in),
+                    _ => None,
+                };
                 context.set_surroundings(*current);
+                if let Some(config) = changed {
+                    context.update_config(config);
+                }
             } else if !succeeded {
                 let rng = context.rng_state();
                 context.set_surroundings(*current);
